@@ -374,13 +374,20 @@ class JakesSampleGenerator(FadingSampleGenerator):
         new_shape : None | int | tuple[int]
             The shape of the generated channel.
         """
+        old_shape = self._shape
+
         # Call the base class property setter
         FadingSampleGenerator.shape.fset(self, new_shape)  # type: ignore
 
         # Since phi and psi depend on the shape we need to update
         # them. Note that `_set_phi_and_psi_according_to_shape` will use
         # the new_shape of self._shape
-        self._set_phi_and_psi_according_to_shape()
+        try:
+            self._set_phi_and_psi_according_to_shape()
+        except Exception:
+            # An unusable shape must not leave a half-configured generator
+            self._shape = old_shape
+            raise
 
     @property
     def L(self) -> int:
@@ -455,11 +462,6 @@ class JakesSampleGenerator(FadingSampleGenerator):
         # Generate a 1D numpy with the time samples
         t = self._current_time + np.arange(num_samples) * self.Ts
 
-        # Update the self._current_time variable with the value of the next
-        # time sample that should be generated when _generate_time_samples
-        # is called again.
-        self._current_time += num_samples * self.Ts
-
         # Now we will change the shape of the 't' variable to an
         # appropriated shape for later use.
         if self._shape is not None:
@@ -483,6 +485,12 @@ class JakesSampleGenerator(FadingSampleGenerator):
             # and numpy will replicate to the correct value later thanks to
             # broadcast.
             t.shape = (1, num_samples)
+
+        # Update the self._current_time variable with the value of the next
+        # time sample that should be generated when _generate_time_samples
+        # is called again. This is done last: a malformed request raises
+        # above and must not move the process.
+        self._current_time += num_samples * self.Ts
 
         return t
 
